@@ -650,6 +650,8 @@ def rule_x9(P, reach):
 SHRINK = {"pop", "pop_front", "pop_back", "pop_first", "pop_last", "remove", "swap_remove", "truncate", "drain", "split_off", "split_first",
           "split_last", "take", "retain", "recv", "clear"}
 ARITH = {"AddWithOverflow", "SubWithOverflow", "Add", "Sub", "Div", "Shr"}
+SHRINK_STRICT = {"pop", "pop_front", "pop_back", "pop_first", "pop_last", "swap_remove", "split_first", "split_last", "recv"}
+GROW = {"push", "push_back", "push_front", "insert", "extend", "append", "entry", "extend_from_slice", "push_str", "resize"}
 
 
 def _loops(P, fn):
@@ -723,7 +725,7 @@ def rule_x10(P, reach, tables, g1_covers):
     from common import norm_fn
     table = {(e["fn"], e["n"]): e for e in tables.get("e4_recursion", {}).get("loops", [])}
     findings, obl = [], []
-    n_all = n_iter = n_auto = 0
+    n_all = n_iter = n_auto = n_auto_shrink = 0
     seen = set()
     ordinals = {}
     for fn in sorted(reach):
@@ -748,6 +750,10 @@ def rule_x10(P, reach, tables, g1_covers):
                 n_auto += 1
                 continue
             e = table.get(key)
+            if e is None and (set(short) & SHRINK_STRICT) and not (set(short) & GROW):
+                # a loop that takes elements out of a collection and never puts any in ends when the collection is empty
+                n_auto_shrink += 1
+                continue
             if e is None:
                 obl.append({"rule": "X10", "inst": f"{nf}#loop{key[1]} has a recorded termination argument", "ok": False})
                 findings.append(F("X10", f"X10|{nf}|loop{key[1]}",
@@ -771,7 +777,7 @@ def rule_x10(P, reach, tables, g1_covers):
         if key not in seen:
             findings.append(F("X10", f"X10|stale|{key[0]}|loop{key[1]}", f"audited loop entry {key} matches nothing any more; remove it", "tables/e4_recursion.json"))
     obl.append({"rule": "X10", "inst": f"{n_auto} generated FromPlist::parse loops advance the plist tokenizer or return its error", "ok": True})
-    return findings, obl, {"loops_total": n_all, "loops_iterator_driven": n_iter, "loops_plist_derive": n_auto, "loops_audited": len(seen) - n_auto}
+    return findings, obl, {"loops_total": n_all, "loops_iterator_driven": n_iter, "loops_plist_derive": n_auto, "loops_shrink_only": n_auto_shrink, "loops_audited": len(seen) - n_auto - n_auto_shrink}
 
 
 # ------------------------------------------------------------------------------------------------ X11: input-sized loops/allocations
